@@ -297,6 +297,18 @@ impl M {
                         self.mark("struct literal field duplicated");
                         return;
                     }
+                    // one field named twice and another one missing: the number of fields is right
+                    if fs.len() >= 2 && self.hit() {
+                        fs[1].0 = fs[0].0.clone();
+                        self.mark("struct literal names its first field twice instead of the second one");
+                        return;
+                    }
+                    if fs.len() >= 2 && self.hit() {
+                        let last = fs.len() - 1;
+                        fs[0].0 = fs[last].0.clone();
+                        self.mark("struct literal names its last field twice instead of the first one");
+                        return;
+                    }
                 }
                 Rule::UnknownField => {
                     if !fs.is_empty() && self.hit() {
